@@ -70,6 +70,7 @@ def run_dx(variant, cfg_lines, tag, layers, oracle, api='genbbsub', phases=1, de
     env = dict(os.environ)
     env['ASAN_OPTIONS'] = 'halt_on_error=0:detect_leaks=0:log_path=%s/asan' % d
     env['UBSAN_OPTIONS'] = 'halt_on_error=0:print_stacktrace=1:log_path=%s/ubsan' % d
+    env['VERIF_SAN_LOG'] = os.path.join(d, 'ubsan.hook')
     try:
         r = subprocess.run(cmd, env=env, timeout=timeout, stdout=subprocess.PIPE, stderr=subprocess.PIPE, text=True)
     except subprocess.TimeoutExpired:
